@@ -18,6 +18,7 @@ from ..astutil import call_name, calls, dotted, names_in, param_names, stmts, wa
 from ..core import AnalysisError, Mutant
 from .. import facts
 from ..exprnorm import contains_expr, same_expr, spec
+from ..exprnorm import has_code
 
 EXPLANATION = (
     "Structural characters of TreeNode.from_newick vs. the writer's illegal-label list; "
@@ -80,7 +81,7 @@ def run(ctx):
         if isinstance(st, ast.Assign) and isinstance(st.targets[0], ast.Name) and st.targets[0].id == "illegal_chars":
             illegal = [e.value for e in st.value.elts]
     ctx.need(illegal is not None, "illegal_chars of TreeNode.to_newick")
-    raises = any(isinstance(st, ast.If) and "char in label" in ast.unparse(st.test) and any(isinstance(b, ast.Raise) for b in st.body)
+    raises = any(isinstance(st, ast.If) and has_code(st.test, "char in label") and any(isinstance(b, ast.Raise) for b in st.body)
                  for st in ast.walk(tn))
     for ch in sorted(special):
         ctx.ob("R1.structural-char-refused", TREE, "TreeNode.to_newick", f"{ch!r} in label -> ValueError", ch in illegal and raises,
@@ -161,11 +162,11 @@ def run(ctx):
     # ---------------- R2 construction checks ---------------------------------------
     ti = s.func("Tree.__init__")
     rng = any(isinstance(st, ast.If) and any(isinstance(b, ast.Raise) for b in st.body)
-              and "index >= leaf_count" in ast.unparse(st.test) and "index < 0" in ast.unparse(st.test) for st in ast.walk(ti))
+              and has_code(st.test, "index >= leaf_count") and has_code(st.test, "index < 0") for st in ast.walk(ti))
     ctx.ob("R2.leaf-index-range", TREE, "Tree.__init__", "index >= leaf_count or index < 0 -> TreeError", rng,
            "leaf indices must be checked on both sides before they subscript the leaf list", ti.lineno)
     dup = any(isinstance(st, ast.If) and any(isinstance(b, ast.Raise) for b in st.body)
-              and ("self._leaves[index] is not None" in ast.unparse(st.test) or "len(set(" in ast.unparse(st.test)
+              and (has_code(st.test, "self._leaves[index] is not None") or "len(set(" in ast.unparse(st.test)
                    or "np.unique" in ast.unparse(st.test)) for st in ast.walk(ti))
     ctx.ob("R2.leaf-index-unique", TREE, "Tree.__init__", "duplicate leaf index -> TreeError", dup,
            "two leaves with the same index are accepted: one slot of Tree.leaves stays None "
@@ -173,8 +174,8 @@ def run(ctx):
     ci = s.func("TreeNode.__cinit__")
     ct = ast.unparse(ci)
     ctx.ob("R2.node-checks", TREE, "TreeNode.__cinit__", "children/distances length, distinct children, single parent",
-           "len(children) != len(distances)" in ct and "children[i] is children[j]" in ct and "index < 0" in ct
-           and "child._set_parent(self, distance)" in ct and "Node already has a parent" in ast.unparse(s.func("TreeNode._set_parent")),
+           has_code(ci, "len(children) != len(distances)") and has_code(ci, "children[i] is children[j]") and has_code(ci, "index < 0")
+           and has_code(ci, "child._set_parent(self, distance)") and "Node already has a parent" in ast.unparse(s.func("TreeNode._set_parent")),
            "a node must have one distance per child, distinct children and at most one parent", ci.lineno)
 
     # ---------------- R3 copy, eq/hash ------------------------------------------------
@@ -243,7 +244,7 @@ def run(ctx):
                     vals = [ast.unparse(x.value) for x in b.body if isinstance(x, ast.Assign)]
                     if f"{mat}[i_min, k]" in tg and f"{mat}[k, i_min]" in tg:
                         a_, b__ = tg.index(f"{mat}[i_min, k]"), tg.index(f"{mat}[k, i_min]")
-                        ok = vals[a_] == vals[b__] and "not is_clustered_v[k] and k != i_min" in ast.unparse(b.test)
+                        ok = vals[a_] == vals[b__] and has_code(b.test, "not is_clustered_v[k] and k != i_min")
         ctx.ob("R4.symmetric-update", rel, q, f"{mat}[i_min, k] and {mat}[k, i_min] receive the same value", ok,
                "the merged cluster's distances must be written to both triangles for every other unclustered node", f.lineno)
         # the binary join: nodes[A] = TreeNode((nodes[A], nodes[B]), ...) retires exactly B in the same block
